@@ -9,7 +9,8 @@ ModelInputArrayBijector.scaler_from_spec / onehot_embedder_from_spec with *symbo
   DefaultModelInputConverter._convert_index / _convert_continuous + _to_parameter_value    exact round trip
   ModelInputArrayBijector.onehot_embedder_from_spec exactly one active entry, unembed(embed(i)) == i
   ModelInputArrayBijector.scaler_from_spec          LINEAR: unit interval, orientation, inverse (real arithmetic);
-                                                    LOG / REVERSE_LOG: np.log applied to positive arguments only
+                                                    LOG / REVERSE_LOG: np.log applied to positive arguments only, a non-positive
+                                                    bound is refused with ValueError (and nothing else is refused)
   DefaultModelOutputConverter.convert / to_metrics  sign round trip, NaN <-> None
 
 READING OF THE PROPERTY (stated, used by the oracles):
@@ -155,6 +156,18 @@ def exc_class(p):
     return E.class_name(p.value.cls) if p.kind == 'raise' else None
 
 
+def refusal_obligations(p, ptype, scale, name):
+    """the converter constructor raised: the property allows a configuration that cannot be handled to be REFUSED with an error --
+    here exactly one such configuration exists: a scaling converter for a LOG / REVERSE_LOG parameter with a non-positive bound"""
+    run = p.run
+    ok = z3.BoolVal(False)
+    if p.kind == 'raise' and exc_class(p) == 'ValueError' and ptype == 'DOUBLE' and scale in ('LOG', 'REVERSE_LOG'):
+        lo, hi = xreal.r(run.dom.lo), xreal.r(run.dom.hi)
+        sc = E.zbool(run.opts.scale) if getattr(run, 'opts', None) is not None else z3.BoolVal(True)
+        ok = z3.And(sc, z3.Or(lo <= 0, hi <= 0))
+    return [(name, ok)]
+
+
 # =========================================================================================== A. _to_parameter_value
 def tpv_entry(ptype, dtype, scale):
     def entry(it):
@@ -178,7 +191,7 @@ def tpv_post(ptype, dtype, scale):
     def post(p):
         run = p.run
         if getattr(run, 'stage', '') != 'decode':
-            return []                       # the constructor refused the configuration (ValueError): nothing decoded
+            return refusal_obligations(p, ptype, scale, 'C15.__init__.refuses_only_nonpositive_log_bounds.' + T)
         dom, v, opts = run.dom, run.v, run.opts
         n = dom.fv.n if dom.fv is not None else (dom.hi - dom.lo + 1 if T == 'INTEGER' else None)
         out = []
@@ -304,7 +317,7 @@ def rt_post(ptype, dtype, scale):
         run = p.run
         stage = getattr(run, 'stage', '')
         if stage == 'init':
-            return []
+            return refusal_obligations(p, ptype, scale, 'C15.__init__.refuses_only_nonpositive_log_bounds.' + T)
         if p.kind == 'raise':
             return [('C15.roundtrip.no_raise.' + T, z3.BoolVal(False))]
         out = [('C15.roundtrip.no_raise.' + T, z3.BoolVal(True))]
@@ -376,7 +389,7 @@ def tpvs_post(ptype, dtype, scale):
     def post(p):
         run = p.run
         if getattr(run, 'stage', '') != 'decode':
-            return []
+            return refusal_obligations(p, ptype, scale, 'C15.__init__.refuses_only_nonpositive_log_bounds.' + T)
         if p.kind == 'raise':
             # the only refusals: a one-hot block without columns cannot occur (num_dimensions >= 1)
             return [('C15.to_parameter_values.no_raise.' + T, z3.BoolVal(False))]
@@ -506,8 +519,14 @@ def scaler_post(dtype, scale, degenerate):
 
     def post(p):
         run = p.run
+        if getattr(run, 'stage', '') == 'init':
+            # refused: allowed only for LOG / REVERSE_LOG with a non-positive bound (ValueError); never for LINEAR
+            ok = z3.BoolVal(False)
+            if p.kind == 'raise' and exc_class(p) == 'ValueError' and scale in ('LOG', 'REVERSE_LOG') and not degenerate:
+                ok = z3.Or(xreal.r(run.dom.lo) <= 0, xreal.r(run.dom.hi) <= 0)
+            return [('C15.scaler_from_spec.refuses_only_nonpositive_log_bounds.' + S, ok)]
         if getattr(run, 'stage', '') != 'run':
-            return []           # refused by the constructor (LOG with a negative bound: ValueError)
+            return []           # LOG / REVERSE_LOG built: the obligations are the np.log domain obligations emitted on the way
         if p.kind == 'raise':
             return [('C15.scaler.no_raise.' + S, z3.BoolVal(False))]
         R, fin = xreal.r, xreal.is_fin
@@ -720,6 +739,14 @@ FUNCTIONS = [
     (PCM, 'ParameterConfig.num_feasible_values'), (TRM, 'ParameterValue.cast_as_internal'),
 ]
 
+INVENTORY = (['C15._to_parameter_value.%s.%s' % (c, t) for c in ('in_domain', 'none_only_if', 'fixes_domain') for t in TYPES]
+             + ['C15.roundtrip.exact.%s' % t for t in ('INTEGER', 'DISCRETE', 'CATEGORICAL')] + ['C15.roundtrip.real_arithmetic.DOUBLE']
+             + ['C15.to_parameter_values.%s.%s' % (c, t) for c in ('one_result_per_row', 'decode_is_last') for t in TYPES]
+             + ['C15.onehot.embed.exactly_one_active', 'C15.onehot.unembed_inverse', 'C15.onehot.unembed_range', 'C15.onehot.width']
+             + ['C15.scaler.%s.LINEAR' % c for c in ('unit_interval', 'orientation', 'inverse.decode_encode', 'inverse.encode_decode', 'decode_into_bounds')]
+             + ['C15.labels.%s.%s' % (c, g) for c in ('sign_roundtrip', 'convert.sign', 'nan_is_none', 'metric_information.goal') for g in ('MAXIMIZE', 'MINIMIZE')]
+             + ['C15.scaler_from_spec.log_of_positive.LOG', 'C15.scaler_from_spec.log_of_positive.REVERSE_LOG'])
+
 F_LOG = 'C15.scaler_from_spec.log_of_positive.LOG'
 F_RLOG = 'C15.scaler_from_spec.log_of_positive.REVERSE_LOG'
 F_WIDE = 'C15.standin.REVERSE_LOG.wide_range'
@@ -807,11 +834,12 @@ def main(tier):
     else:
         chk.note('numpy model facts cross-checked against the real numpy: %s' % ', '.join(res['checked']))
     res, verdict, err = K.collect_native(natives['findings'])
-    if known:
-        if verdict != 'REPRODUCED':
-            chk.error('C15.known_finding.stale', 'the recorded LOG/REVERSE_LOG findings were not reproduced on the real code: %s %s' % (verdict, err or res))
-        else:
-            chk.note('finding witnesses replayed on the real code: %s' % json.dumps(res))
+    # a listed finding that no longer reproduces is never an error: the deductive verdict above decides, this is a note
+    if res is not None:
+        chk.note('witnesses of the LOG / REVERSE_LOG lower-bound findings (%s) replayed on the real code: %s -- %s'
+                 % ('open' if known else 'recorded as fixed', 'still reproduce' if verdict == 'REPRODUCED' else 'no longer reproduce', json.dumps(res)))
+    else:
+        chk.note('finding witness driver did not run: %s %s' % (verdict, str(err)[:200]))
     res, verdict, err = K.collect_native(natives['standin'], timeout=600)
     fw = chk.finding_for(F_WIDE)
     bound = ('grid: %s tier; lower bounds 1e-300..1e12 x ratios hi/lo in 1+1e-12..1e100 x 10 points per range x {LINEAR, LOG, REVERSE_LOG} x '
@@ -836,5 +864,5 @@ def main(tier):
                                detail=res['known_class_examples'][0], model=json.dumps(res['known_class_examples']),
                                replay={'cmd': '/venv/bin/python %s standin_logscale %s' % (REPLAY, tier)}, reproduced=True)
         elif fw:
-            chk.error('C15.known_finding.stale', 'the REVERSE_LOG wide-range finding no longer shows on the grid: update known_findings.d/C15.json')
-    return chk.finish(min_obligations=60)
+            chk.note('the recorded REVERSE_LOG wide-range finding no longer shows on the grid (known_findings.d/C15.json can be marked fixed)')
+    return chk.finish(min_obligations=60, inventory=INVENTORY)
